@@ -102,6 +102,33 @@ def xml_plans(num, seed, tokens=9, workers=8):
     return res[0][0], out
 
 
+def jsonld_plans(num, seed, tokens=8, workers=8):
+    """behaviours of the JSON-LD writer machine JsonLdSpelling.tla (simulation mode, several seeds in parallel)"""
+    from concurrent.futures import ThreadPoolExecutor
+
+    def one(k):
+        d = tlc.scratch("rvf-gen-")
+        try:
+            cfg = os.path.join(d, "gen.cfg")
+            consts = {"NNs": "3", "Locals": tlc.tla_set(["x", "y"]), "NLit": "3", "Pfx": tlc.tla_set(["p", "q"]), "Langs": tlc.tla_set(["en", "de"]), "MaxNodes": "2", "MaxDepth": "4", "MaxTokens": str(tokens)}
+            tlc.write_cfg(cfg, spec="Spec", constants=consts, constraints=["Export"], invariants=["WellFormedMeaning", "NoDanglingCell"])
+            return tlc.export_json("JsonLdSpelling", cfg, timeout=900, extra=["-simulate", "num=%d" % max(1, num // workers), "-depth", "60", "-seed", str(seed * 100 + k)])
+        finally:
+            shutil.rmtree(d, ignore_errors=True)
+    with ThreadPoolExecutor(workers) as ex:
+        res = list(ex.map(one, range(workers)))
+    seen, out = set(), []
+    for r, items in res:
+        for it in items:
+            key = repr(it["doc"])
+            nb = {x["v"] for q in it["quads"] for x in q.values() if x["k"] == "bnode"}
+            if len(nb) > 6 or key in seen:
+                continue
+            seen.add(key)
+            out.append(it)
+    return res[0][0], out
+
+
 def _iri(ns, l):
     return {"k": "iri", "ns": ns, "l": l}
 
@@ -178,10 +205,11 @@ def run(out, tier, seed):
                 "(white space, comments, \\u / \\U / ECHAR escapes, PN_LOCAL escapes, keyword case, optional trailing ';' and '.') and handed to rdflib as str, bytes, BytesIO, StringIO, path, pathlib.Path and open file; "
                 "rdflib's N-Triples / N-Quads output for the C03 / C06 shapes decoded by the strict grammar NTriplesGrammar.tla; XML / JSON outputs read by the stdlib parsers")
     out.assumptions += ["literals with a datatype are compared after rdflib's normalising constructor (lexical normalisation belongs to C07 / C09)",
-                        "JSON-LD alternative spellings are covered by hand-enumerated documents, not by a writer machine",
+                        "JSON-LD: the writer machine JsonLdSpelling.tla covers contexts (prefixes, @vocab, @base, @language, term definitions with @type / @language / @container, embedded contexts), node objects, value objects, native values, lists and named graphs; @reverse, @index, @nest, @included, scoped contexts on terms / types and remote contexts only through the hand-enumerated documents or not at all",
                         "RDF/XML names are NCNames of XML 1.0 fourth edition (what expat reads); parseType=Literal content is text only"]
     out.mc("TurtleSpelling", "MC_TurtleSpelling.cfg")
     out.mc("RdfXmlSpelling", "MC_RdfXmlSpelling.cfg")
+    out.mc("JsonLdSpelling", "MC_JsonLdSpelling.cfg")
     rng = random.Random(seed)
     jobs = []
     n = 250 if quick else 3000
@@ -214,6 +242,14 @@ def run(out, tier, seed):
         for v in range(2):
             routes = ROUTES if (pi + v) % 5 == 0 else ["str", ROUTES[1 + (pi + v) % (len(ROUTES) - 1)]]
             jobs.append({"cfg": {}, "events": [{"op": "spell_plan", "fmt": "xml", "plan": p, "seed": seed * 1000033 + pi * 2 + v, "routes": routes, "family": "xml-machine"}]})
+    # JSON-LD: behaviours of the writer machine JsonLdSpelling.tla, rendered by jsonld_spell.py
+    r, jps = jsonld_plans(280 if quick else 4000, seed + 2)
+    out.states += r.generated
+    out.extra["plans_jsonld"] = len(jps)
+    for pi, p in enumerate(jps):
+        for v in range(2):
+            routes = ROUTES if (pi + v) % 5 == 0 else ["str", ROUTES[1 + (pi + v) % (len(ROUTES) - 1)]]
+            jobs.append({"cfg": {}, "events": [{"op": "spell_plan", "fmt": "json-ld", "plan": p, "seed": seed * 1000081 + pi * 2 + v, "routes": routes, "family": "jsonld-machine"}]})
     from ..spell_docs import all_docs
     for fmt, name, text, quads in all_docs():
         enc = "utf-16" if name == "utf-16" else "utf-8"
